@@ -39,6 +39,7 @@ type Profile struct {
 	PlainNames bool // always the plain collection names (engines that address "a","b" literally)
 	Framed int // percentage of cases whose value callbacks frame every value with a 4-byte trailer
 	Bulk int // per mille of the cases that start with a bulk load of 1300-4000 items (then few ops, comparison at the end)
+	NoGiant bool // never draw values above 64 KiB (fault enumerations re-open thousands of times per history)
 	HugeNames bool // rarely: a 70 000-byte collection name (root records beyond 64 KiB)
 	NestedKinds []string // ops a visitor callback may run (default nestedKinds)
 	Stores   int  // max extra unrelated stores
@@ -110,8 +111,29 @@ var hostileVals = [][]byte{
 	[]byte("3e4a5p"), []byte("p3e4a5p3e4a5"),
 }
 
+// giantDrawn is set by genVal when the case being generated got a value above
+// 64 KiB (generation is sequential).  gkvlite finds the last root record by a
+// byte-wise backward scan, so megabytes of unflushed bytes behind it make every
+// open slow: such cases get no Collection.Write after the giant value.
+var giantDrawn bool
+
 func genVal(t *rapid.T, p *Profile) []byte {
 	r := uni(t, 100, "valclass")
+	if p.BigVals && !p.NoGiant && r == 99 && uni(t, 12, "giant") == 0 {
+		giantDrawn = true
+		// rarely: a value just above 1 MiB (or 64 KiB) - sizes at which an
+		// implementation might start to split or cap reads and writes
+		n := 1<<20 + uni(t, 3000, "giantlen")
+		if uni(t, 3, "giantclass") == 0 {
+			n = 1<<16 + uni(t, 300, "giantlen64k")
+		}
+		b := make([]byte, n)
+		f := rapid.Byte().Draw(t, "giantfill")
+		for i := range b {
+			b[i] = f + byte(i%253)
+		}
+		return b
+	}
 	switch {
 	case r < 88:
 		return rapid.SliceOfN(rapid.Byte(), 0, 24).Draw(t, "val")
@@ -357,6 +379,7 @@ func handleIfRead(kind string, handle func()) {
 func GenCase(p *Profile) *rapid.Generator[Case] {
 	return rapid.Custom(func(t *rapid.T) Case {
 		var c Case
+		giantDrawn = false
 		c.Cfg.Profile = p.Name
 		c.Cfg.Mem = p.MemPct > 0 && uni(t, 100, "mem") < p.MemPct
 		c.Cfg.RandSeed = int64(rapid.IntRange(1, 1<<30).Draw(t, "randseed"))
@@ -453,6 +476,9 @@ func GenCase(p *Profile) *rapid.Generator[Case] {
 			k := p.drawKind(t)
 			if gs.mono && k == OpSetR {
 				k = OpSet
+			}
+			if giantDrawn && k == OpWrite {
+				k = OpFlush
 			}
 			c.Ops = append(c.Ops, p.genOpKind(t, k, gs, 0))
 			// Evictions only bite on flushed items: follow a Flush by a burst of
